@@ -29,6 +29,16 @@ def run(ctx):
     traces, verd, extras = asmcheck.run_suite(ctx, "random-programs", cases)
     for c in cases:
         ctx.add_class("prog|" + c.tag + "|" + str(min(len(c.prog) // 10, 9)))
+    # accepted free text: single-line mutations of valid programs (data directives included), judged with "raw" statements
+    from harness.props import c13
+    corpus = [c13.README] + [Case(proggen.gen_program(rnd, 3, 14, faults=False)[0]).lines for _ in range(300)]
+    muts = []
+    for _ in range(150000 if thorough else 12000):
+        lines = list(rnd.choice(corpus))
+        k = rnd.randrange(len(lines))
+        lines[k] = c13.mutate_line(rnd, lines[k])
+        muts.append(lines)
+    asmcheck.run_text_suite(ctx, "mutated-programs-accepted-text", muts)
     ctx.cov["rule"] = ("programs of the bounded reference model (TLC-exported), one labelled frame per opcode-table cell, and seeded random programs of 3-200 statements "
                        "(all operand forms, labels on every statement in the long ones, EQUs before/after, ORG none/first/late/repeated at 8 origins, duplicate and undefined "
                        "labels). Judged by TLC: addresses advance by the bytes emitted, image = concatenation placed at the reported origin, every symbol-table line, "
